@@ -33,7 +33,7 @@ class Case:
             self.sexp = G.routine_sexp(sch.program, self.tree_of)
         except KeyError as e:
             self.sexp = None
-        self.status, res = try_compile(self.qref, **kw)
+        self.status, res = try_compile(self.qref, form=("schema", "program", "dict")[self.seed % 3], **kw)
         if self.status == "ok":
             self.result = res
         else:
